@@ -79,11 +79,24 @@ Fixpoint has_nan (a : val) : bool :=
   | _ => false
   end.
 
+(* Case terms are kept small (coqc spends about a millisecond per numeral): a string is written as
+   one number, [u z], its scalar values being the base-2^21 digits of z below a leading 1; the tree that
+   was written is compared through its length and a checksum. *)
+Definition B21 : Z := 2097152.
+Fixpoint unpack_aux (fuel : nat) (z : Z) (acc : str) : str :=
+  match fuel with
+  | O => acc
+  | S f => if z <=? 1 then acc else unpack_aux f (z / B21) (z mod B21 :: acc)
+  end.
+Definition u (z : Z) : str := unpack_aux (Z.to_nat (Z.log2 z / 21 + 1)) z [].
+Definition cksum (l : list Z) : Z :=
+  fold_left (fun acc x => (acc * 1000003 + x + 7) mod 2305843009213693951) l 0.
+
 (* output:
      [0]                     save refused the configuration (it is not valid)
      [-1] / [-2]             the serialiser reported an error: save returned Err / panicked (unwrap)
-     1 :: n :: <tree> ++ [0] the file did not load
-     1 :: n :: <tree> ++ [1; eq; valid; same_tree]
+     [1; n; ck; 0]           the file did not load (n, ck: length and checksum of the written tree)
+     [1; n; ck; 1; eq; valid; same_tree]
    eq = `loaded == original`; valid = loaded.is_valid(); same_tree = the loaded configuration
    serialises to the same tree *)
 Definition run_with (unwraps : bool) (c : case) : list Z :=
@@ -92,7 +105,7 @@ Definition run_with (unwraps : bool) (c : case) : list Z :=
        | None => [if unwraps then -2 else -1]
        | Some y =>
            let e := enc_y y in
-           1 :: zlen e :: e ++
+           1 :: zlen e :: cksum e ::
            match de cfg_schema FUEL (root c) y with
            | None => [0]
            | Some v' => [1; if val_eqb (c_val c) v' && negb (has_nan (c_val c)) then 1 else 0; 1; 1]
@@ -117,7 +130,7 @@ Definition oracle (c : case) (out : list Z) : bool :=
   negb (list_eqb out [-2]) &&
   (if negb (inscope c) then true
    else match out with
-        | 1 :: n :: rest => list_eqb (skipn (Z.to_nat n) rest) [1; 1; 1; 1]
+        | 1 :: _ :: _ :: rest => list_eqb rest [1; 1; 1; 1]
         | _ => false
         end).
 
